@@ -88,6 +88,11 @@ func (w *World) allObjectIDs() []Token {
 	return out
 }
 
+func (w *World) allObjectIDsAt(s *WorldSnap) []Token {
+	w.Restore(s)
+	return w.allObjectIDs()
+}
+
 // c09Scenarios: name -> scenario
 func c09Scenarios(thorough bool) []*Scenario {
 	a := func(v string) SetReqOrCall { return setReq("T1.leafA="+v, upd("T1", "/cont/leafA", v)) }
